@@ -24,16 +24,18 @@ from harness import common, scriptlib as sl
 
 PROP = 'C04'
 THEOREMS = ['C04_trace', 'C04_terminates', 'C04_const', 'C04_sum', 'C04_fixed_len', 'C04_edit_distance', 'C04_string',
-            'C04_lists', 'C04_lists_trace']
+            'C04_lists', 'C04_lists_trace', 'C04_collection', 'C04_bracket_lo', 'C04_bracket_hi', 'C04_bracket_matcher',
+            'C04_matcher', 'C04_multiset', 'C04_docs', 'C04_docs_trace']
 MODELS = ['theories/MachineSpec.vo', 'theories/MachineModel.vo']
 HEADER = ('From Coq Require Import ZArith List Bool.\nRequire Import GT.PyBase GT.Data GT.MachineSpec.\n'
           'Import ListNotations.\nOpen Scope Z_scope.\n')
 MODEL_HEADER = 'Require Import GT.MachineModel.\n'
 MODELLED = ['ConstantCostEdit (Match/Replace/Remove/Insert)', 'KeyValuePairEdit (sum combinator; XMLElementEdit, DataClassEdit, '
             'PyObjEdit are the same combinator)', 'repeat_until_tightened', 'FixedLengthSequenceEdit', 'EditDistance',
-            'StringEdit']
-TRACE_ONLY = ['EditCollection / FixedKeyDictNodeEdit', 'WeightedBipartiteMatcher', 'MultiSetEdit (incl. directly built '
-              'MultiSetNodes with repeated elements: ext stream)', 'Edge',
+            'StringEdit', 'EditCollection / FixedKeyDictNodeEdit (children\'s initial upper bounds within cost_upper_bound)',
+            'WeightedBipartiteMatcher (make_distinct and the assignment solver as oracles, all answers)',
+            'MultiSetEdit over multisets without repeated elements', 'Edge (pure delegation)']
+TRACE_ONLY = ['MultiSetEdit / WeightedBipartiteMatcher on directly built MultiSetNodes with repeated elements (ext stream; D36)',
               'IterativeTighteningSearch', 'PossibleEdits']
 
 CLS = {'KeyValuePairEdit': 'CSum', 'XMLElementEdit': 'CSum', 'DataClassEdit': 'CSum', 'PyObjEdit': 'CSum',
@@ -61,6 +63,8 @@ class Monitor:
         self.bdepth = {}
         self.steps = 0
         self.calls = 0
+        self.tcount = {}        # id -> number of outermost tighten_bounds() calls (oracle: make_distinct's calls per edge)
+        self.matchers = []      # WeightedBipartiteMatcher objects whose make_distinct / assignment answers were recorded
 
     def entry(self, o):
         i = id(o)
@@ -125,12 +129,42 @@ class Monitor:
                     mon.tdepth[i] = d
                 if outer:
                     mon.steps += 1
+                    mon.tcount[i] = mon.tcount.get(i, 0) + 1
                     mon.entry(self)[2].append(['T', bool(r)])
                     if mon.mode == 'active':
                         self.bounds()
                 return r
             tighten_bounds.__wrapped_by_c04__ = True
             return tighten_bounds
+
+        # oracle answers of every WeightedBipartiteMatcher: the number of tighten_bounds() calls make_distinct makes on
+        # each edge (the order in which it visits its interval tree depends on object addresses) and the assignment
+        # scipy returns; recorded on the matcher object, read by impl_trace
+        from graphtage.matching import WeightedBipartiteMatcher as WBM
+        orig_med = WBM._make_edges_distinct
+        orig_matching = WBM.matching.fget
+
+        def _make_edges_distinct(self):
+            if self._edges_are_distinct:
+                return orig_med(self)
+            edges = self.edges
+            before = [[mon.tcount.get(id(e), 0) for e in row] for row in edges]
+            r = orig_med(self)
+            self._c04_counts = [[mon.tcount.get(id(e), 0) - b for e, b in zip(row, brow)] for row, brow in zip(edges, before)]
+            if self not in mon.matchers:
+                mon.matchers.append(self)
+            return r
+
+        def matching(self):
+            fresh = self._match is None
+            r = orig_matching(self)
+            if fresh and self.from_nodes and self.to_nodes:
+                self._c04_asg = [[self.from_node_indexes[f], self.to_node_indexes[t]] for f, (t, _) in r.items()]
+                if self not in mon.matchers:
+                    mon.matchers.append(self)
+            return r
+        WBM._make_edges_distinct = _make_edges_distinct
+        WBM.matching = property(matching)
 
         seen = set()
         for name, mod in list(sys.modules.items()):
@@ -272,6 +306,23 @@ def impl_trace(item):
                     collapsed = True
             except Exception:  # noqa
                 pass
+    # the oracle table for the model: (from_nodes, to_nodes) -> (make_distinct counts, assignment); a key that received two
+    # different answers (address-dependent choices inside make_distinct) makes the table ambiguous: no correspondence
+    oracle, orc_ok = [], ta is not None
+    if orc_ok:
+        try:
+            seen_keys = {}
+            for m in MON.matchers:
+                key = json.dumps([[sl.ser_tree(x) for x in m.from_nodes], [sl.ser_tree(x) for x in m.to_nodes]])
+                ans = [getattr(m, '_c04_counts', []), getattr(m, '_c04_asg', [])]
+                if key in seen_keys:
+                    if seen_keys[key] != ans:
+                        orc_ok = False
+                    continue
+                seen_keys[key] = ans
+                oracle.append([json.loads(key), ans])
+        except ValueError:
+            orc_ok = False
     objs = []
     ids = list(MON.order)
     if root_id is not None and root_id in MON.objs:
@@ -295,7 +346,7 @@ def impl_trace(item):
             out = out[:300]
         objs.append([cname, out])
     res = {'a': ta, 'b': tb, 'root': root_id is not None and mode == 'active', 'crashed': crashed, 'collapsed': collapsed,
-           'objs': objs,
+           'objs': objs, 'oracle': oracle if orc_ok else [], 'oracle_ok': orc_ok,
            'steps': MON.steps, 'calls': MON.calls, 'unstepped_objects': n_const}
     MON.reset('active')
     if crashed:
@@ -341,11 +392,24 @@ CORR_LIMIT = 10000       # |a| * |b| in nodes: the model builds the full matrix 
 
 
 def corr_wanted(r):
-    return bool(r['root'] and r['a'] is not None and _nodes(r['a']) * _nodes(r['b']) <= CORR_LIMIT)
+    return bool(r['root'] and r['a'] is not None and r.get('oracle_ok', True) and _nodes(r['a']) * _nodes(r['b']) <= CORR_LIMIT)
+
+
+def nat_list(l):
+    return '[' + ';'.join(f'{int(x)}%nat' for x in l) + ']'
+
+
+def oracle_term(r):
+    ents = []
+    for (fs, ts), (cnt, asg) in r.get('oracle', []):
+        k = f'([{";".join(sl.tree_term(x) for x in fs)}], [{";".join(sl.tree_term(x) for x in ts)}])'
+        a = f'([{";".join(nat_list(row) for row in cnt)}], [{";".join(f"({int(i)}%nat, {int(j)}%nat)" for i, j in asg)}])'
+        ents.append(f'({k}, {a})')
+    return '[' + ';'.join(ents) + ']'
 
 
 def ccase_term(r):
-    return f'(Build_ccase {case_term(r)} {sl.b(corr_wanted(r))})'
+    return f'(Build_ccase {case_term(r)} {sl.b(corr_wanted(r))} {oracle_term(r) if corr_wanted(r) else "[]"})'
 
 
 # ------------------------------------------------------------------ generators
@@ -428,6 +492,39 @@ def gen_ext_unbalanced(rng):
     return a, b
 
 
+def gen_mapping(rng, depth):
+    if depth <= 0 or rng.random() < 0.3:
+        return rng.choice(LISTY)
+    if rng.random() < 0.3:
+        return [gen_mapping(rng, depth - 1) for _ in range(rng.randint(0, 3))]
+    return {k: gen_mapping(rng, depth - 1) for k in rng.sample(sl.KEYS, rng.randint(0, min(4, len(sl.KEYS))))}
+
+
+def mutate_mapping(rng, v):
+    if isinstance(v, dict):
+        out = {}
+        for k, x in v.items():
+            r = rng.random()
+            if r < 0.15:
+                continue                                   # key dropped
+            if r < 0.3:
+                k = rng.choice(sl.KEYS)                    # key renamed (possibly onto an existing one)
+            out[k] = mutate_mapping(rng, x) if rng.random() < 0.6 else x
+        if rng.random() < 0.3:
+            out[rng.choice(sl.KEYS)] = gen_mapping(rng, 1)
+        return out
+    if isinstance(v, list):
+        return near_tie(rng, [mutate_mapping(rng, x) if isinstance(x, dict) else x for x in v])
+    return near_tie(rng, v) if rng.random() < 0.5 else v
+
+
+def gen_mapping_pair(rng, depth):
+    a = gen_mapping(rng, depth)
+    if not isinstance(a, dict):
+        a = {rng.choice(sl.KEYS): a}
+    return a, mutate_mapping(rng, a)
+
+
 def gen_items(tier, rng):
     items = []
     path = os.path.join(common.VERIF, 'corpus', 'C04.jsonl')
@@ -467,6 +564,10 @@ def gen_items(tier, rng):
         kb = ka if k % 3 == 0 else rng.choice(sl.KEYS)
         items.append({'a': a, 'b': b, 'opts': ['auto', ['on', 'off', 'same'][k % 3]], 'mode': 'active',
                       'kvp': [ka, kb, True]})
+    n_map = 150 if q else 2500
+    for k in range(n_map):             # mapping-heavy documents: FixedKeyDictNodeEdit (none) / MultiSetEdit + matcher (auto, match)
+        a, b = gen_mapping_pair(rng, 2 if k % 4 else 3)
+        items.append({'a': a, 'b': b, 'opts': [['none', 'match', 'auto'][k % 3], ['on', 'off', 'same'][(k // 3) % 3]], 'mode': 'active'})
     for st_, tt_ in [('a', 'a'), ('', ''), ('abc', 'abc'), ('ab', ''), ('', 'ab'), ('abc', 'axc'), ('kitten', 'sitting')]:
         items.append({'a': st_, 'b': tt_, 'opts': ['auto', 'on'], 'mode': 'sed'})
     n_ext = 70 if q else 700
@@ -708,7 +809,7 @@ def replay(path):
         return 1
     wd = common.Workdir(PROP + 'r')
     try:
-        common.build(['theories/MachineSpec.vo'], [])
+        common.build(['theories/MachineSpec.vo'], ['theories/MachineSpec.vo'])
         r = common.run_impl('pC04', 'impl_trace', [it], nproc=1)[0]
         print(json.dumps(r)[:3000])
         if 'ok' not in r:
